@@ -220,7 +220,11 @@ def correspondence(ctx, broken_obligations=()):
     # the same with the change notification (installing version 2) as the second thread, parked inside its critical
     # section or not at all: the request may be answered from version 1 or 2, and everything must return
     twoc = ["two:changed:%d:%d:%s:c;%s" % (a, b, o, k) for a in range(4) for b in (4, 3) for o in ("ab", "ba") for k in KINDS]
-    cases = cases + (two + twoc) * (1 if ctx.quick else 3)
+    # hook 5 = diag:between_lint_walk_and_take: a diagnostics request parked after its walk over the annotated tree, with
+    # its findings collected but not yet taken, while another diagnostics request runs (to the same point or to the end)
+    twod = ["two:%s:%d:%d:%s;diagnostics" % (st, a, b, o) for st in ("fresh", "changed")
+            for (a, b) in ((5, 5), (5, 0), (0, 5), (5, 1), (1, 5), (5, 2), (2, 5)) for o in ("ab", "ba")]
+    cases = cases + (two + twoc + twod) * (1 if ctx.quick else 3)
 
     def model_case(c):
         sc = c.split(";")[0]
